@@ -46,7 +46,7 @@ func init() {
 		Explain: "Decides: all shared client state is accessed under client.lock, writes under the write lock, helpers documented as needing the lock are checked at their call sites (C15.lock, lockset analysis); every change of client.metadata is followed in the same function by the matching change of the derived partition lists, which are rebuilt from setPartitionCache for both partition sets (C15.pair); updateMetadata's switch on the topic error has the tabled effect per class (stored / retry / error) and drops the old entry first (C15.classes); " +
 			"the derived lists are sorted and the writable list omits exactly the leaderless partitions (C15.sorted-writable); cachedLeader returns a broker only if it is registered and the partition has a leader (C15.leader); the broker set is reconciled with each response (C15.brokers); every candidate-iteration loop sets the failed broker aside before trying the next and resurrects the dead seeds before retrying (C15.progress); read paths refresh at most once on a miss (C15.miss). " +
 			"NOT covered: folding of arbitrary response sequences, what concurrent readers observe beyond the lock discipline, reachability of brokers.",
-		Rules: []func(*Ctx){c15Lock, c15Pair, c15Classes, c15SortedWritable, c15Leader, c15Brokers, c15Progress, c15Miss, c15ReadSets},
+		Rules: []func(*Ctx){c15Lock, c15Pair, c15Classes, c15SortedWritable, c15Leader, c15Brokers, c15Progress, c15Miss, c15ReadSets, c15ErrLost, c15EncodeErrorClass},
 	})
 }
 
@@ -701,4 +701,96 @@ func c15ReadSets(c *Ctx) {
 				t.fn+" reads another derived list than "+t.name+" (or another topic's) on this path: after a refresh-on-miss the caller gets leaderless partitions as writable, or the other way round", nil)
 		}
 	}
+}
+
+// C15.encode-error-class: a request that cannot be encoded is the caller's problem, not the brokers'.
+func c15EncodeErrorClass(c *Ctx) {
+	p := c.P
+	rule := "C15.encode-error-class"
+	c.Doc(rule, "client.tryRefreshMetadata tells a request that could not be encoded (PacketEncodingError: nothing was sent) from a broker failure by the error's dynamic type, and only the latter deregisters the broker.  So (i) its type switch has a PacketEncodingError case on which no broker is closed or deregistered, and (ii) MetadataRequest.encode hands the errors of its pe.put* calls back unchanged — not wrapped or converted — or the case never matches and one over-long topic name makes the client drop every broker it knows")
+	c.Floor(rule, 2)
+	if fn := c.NeedFn(rule, "MetadataRequest.encode"); fn != nil {
+		bad := ""
+		var at ssa.Instruction
+		for _, b := range fn.Blocks {
+			r, ok := lastInstr(b).(*ssa.Return)
+			if !ok || len(r.Results) == 0 {
+				continue
+			}
+			v := r.Results[len(r.Results)-1]
+			if mi, isMI := v.(*ssa.MakeInterface); isMI {
+				if n, _ := NamedOf(mi.X.Type()); n == "PacketEncodingError" {
+					continue // an encoding error of its own, of the right dynamic type
+				}
+			}
+			if !onlyCalleeErrors(v, "put", 0) {
+				bad, at = describe(v), r
+			}
+		}
+		c.Check(bad == "", rule, fn, "put-errors-unchanged", at, "every error returned is nil, a PacketEncodingError made here, or the error of a pe.put* call, unchanged", "MetadataRequest.encode returns an error that is not the unchanged error of one of its pe.put* calls ("+bad+"): wrapped, it is no longer a PacketEncodingError for tryRefreshMetadata's type switch, which then treats 'request not encodable' as a broker failure and closes and deregisters every broker in turn", nil)
+	}
+	if fn := c.NeedFn(rule, "client.tryRefreshMetadata"); fn != nil {
+		// the closure / body containing the type switch: a TypeAssert to PacketEncodingError whose ok-edge leads to a
+		// return without deregisterBroker / Broker.Close
+		found := false
+		for _, f := range p.Fns {
+			if f != fn && rootFn(f) != fn {
+				continue
+			}
+			for _, b := range f.Blocks {
+				for _, in := range b.Instrs {
+					ta, ok := in.(*ssa.TypeAssert)
+					if !ok || !ta.CommaOk {
+						continue
+					}
+					if n, _ := NamedOf(ta.AssertedType); n != "PacketEncodingError" {
+						continue
+					}
+					found = true
+					isOK := Truth{func(v ssa.Value) bool {
+						ex, ok := v.(*ssa.Extract)
+						return ok && ex.Index == 1 && ex.Tuple == ssa.Value(ta)
+					}, true}
+					reg := WholeFn(f)
+					badPath := false
+					for _, e := range reg.EstablishingEdges(isOK) {
+						if it, _ := reg.From(Pt{e.To, 0}).Reach(p.CallTo("client.deregisterBroker", "Broker.Close"), nil); !it.IsZero() {
+							badPath = true
+						}
+					}
+					c.Check(!badPath, rule, f, "encoding-error-keeps-brokers", ta, "on a PacketEncodingError no broker is closed or deregistered", "tryRefreshMetadata closes or deregisters a broker although the request could not even be encoded", nil)
+				}
+			}
+		}
+		if !found {
+			c.Fail(rule, fn, "encoding-error-keeps-brokers", nil, "tryRefreshMetadata no longer distinguishes PacketEncodingError from broker failures: an unencodable request deregisters every broker", nil)
+		}
+	}
+}
+
+// onlyCalleeErrors: v is nil, or the error result of an interface-method call whose name starts with prefix, or a merge
+// of such values.
+func onlyCalleeErrors(v ssa.Value, prefix string, d int) bool {
+	if d > 5 {
+		return false
+	}
+	if IsNil()(v) {
+		return true
+	}
+	switch x := v.(type) {
+	case *ssa.Call:
+		return x.Call.IsInvoke() && strings.HasPrefix(x.Call.Method.Name(), prefix)
+	case *ssa.Extract:
+		if cl, ok := x.Tuple.(*ssa.Call); ok {
+			return cl.Call.IsInvoke() && strings.HasPrefix(cl.Call.Method.Name(), prefix)
+		}
+	case *ssa.Phi:
+		for _, e := range x.Edges {
+			if !onlyCalleeErrors(e, prefix, d+1) {
+				return false
+			}
+		}
+		return true
+	}
+	return false
 }
